@@ -199,6 +199,30 @@ impl RtoManager {
     }
 }
 
+#[cfg(feature = "verif-hooks")]
+impl StunMessageTimeout {
+    pub(crate) fn verif_entries(&self) -> Vec<(Instant, Duration, TransactionId)> {
+        self.timeouts
+            .iter()
+            .map(|item| (item.0.instant, item.0.timeout, item.0.transaction_id))
+            .collect()
+    }
+}
+
+#[cfg(feature = "verif-hooks")]
+impl RtoManager {
+    pub(crate) fn verif_state(&self) -> crate::verif_hooks::VerifRto {
+        crate::verif_hooks::VerifRto {
+            latest: self.latest,
+            last_rto: self.last_rto,
+            rtt: self.calculator.rtt,
+            rm: self.calculator.rm,
+            rc: self.calculator.rc,
+            last_rm: self.calculator.last_rm,
+        }
+    }
+}
+
 #[cfg(test)]
 mod stun_timout_item {
     use super::*;
